@@ -41,6 +41,71 @@ PROPS = {
             "C01: uniform RNG words => Bernoulli(p) true with probability floor(p 2^64)/2^64, coin 1/2 (rand 0.10 decoding rules are modelled in Model/Rand.lean and validated by the threshold measurements)",
         ],
     },
+    "C03": {
+        "gen": ["Numeric"],
+        "thm_module": "NutsModel.Thm.C03",
+        "namespace": "NutsModel.C03",
+        "theorems": [
+            "draw_no_panic", "depth_le_maxdepth", "steps_bounds", "index_bounds", "draw_is_visited",
+            "maxdepth_flag_iff", "at_least_one_step", "draw_outcomes", "allOut_iff", "nLeap_eq_count",
+            "buildOther_spec", "extend_spec", "drawLoop_spec", "draw_spec",
+        ],
+        "harness": ["C01", "C03"],
+        "level": "proof",
+        "rule": ("(a) the C01 mock-Hamiltonian records: the real nuts::draw replayed call-by-call by Model/Tree.lean (the model the "
+                 "theorems are about), plus the C03 inequalities evaluated on every such run; (b) real chains through the public API "
+                 "(Diag/LowRank NUTS, Diag MCLMC; Euclidean and ExactNormal; dimensions 1..100; maxdepth 1..10; mindepth; "
+                 "target_integration_time; densities Gaussian / badly scaled / Student-t / quartic; periodic recoverable faults): every "
+                 "returned position is looked up in the density evaluation log, logp and gradient statistics must equal the "
+                 "logged values bit-exactly, and depth / n_steps / index inequalities are checked on every draw. "
+                 "distinct_nontrivial = draws with depth >= 2 that moved (NUTS) + MCLMC draws + non-trivial mock trajectories."),
+        "trusted": [
+            "C03: proved for Model/Tree.lean (every orbit, every option set with extra_doublings = 0, every random outcome): no assert of merge_into can fire, depth <= maxdepth, 2^depth-1 <= leapfrogs <= 2^(depth+1)-1, |index| <= 2^depth-1, the draw is the start or the destination of a successful leapfrog of this trajectory, maxdepth flag implies depth = maxdepth and no divergence, >= 1 leapfrog when maxdepth >= 1",
+            "C03: not modelled: StatePool recycling (unsafe ManuallyDrop + Rc) -- absence of aliasing is only observed through the bit-exact position/logp/gradient consistency of real runs; the depth window derived from target_integration_time is checked on real runs only; 'stops exactly when' is carried by the bit-exact correspondence of the tree model, its full formal statement (least depth) is not proved",
+        ],
+    },
+    "C06": {
+        "gen": ["Numeric"],
+        "thm_module": "NutsModel.Thm.Sched",
+        "namespace": "NutsModel.Sched",
+        "theorems": [
+            "step_after_warmup", "step_final_window", "step_mass_phase", "transformation_frozen",
+            "stepsize_frozen_after_warmup", "last_uses_average", "tuning_step", "tuning_flag_exact",
+            "any_num_tune_constructs", "nextWindow_grows",
+        ],
+        "harness": "C06",
+        "level": "proof",
+        "rule": ("real chains of the four Euclidean presets (Diag/LowRank x NUTS/MCLMC) x step-size method (dual averaging, Adam, fixed) "
+                 "x num_tune (every value 0..40, then random up to 2000) x random window fractions / switch and update frequencies / "
+                 "growth / jitter, with periodic recoverable density faults making the good/rejected history irregular; after EVERY "
+                 "draw the hook counters (tuning, has_initial, last_update, window, foreground and background counts), the internal "
+                 "dual-averaging / Adam state and the tuning flags are compared with Model/Schedule.lean (exact integers, bit-exact "
+                 "floats). Direct oracle on the implementation: exactly num_tune tuning draws (Progress and statistic), no "
+                 "transformation id change at or after the final window, post-warmup step_size_bar constant and step size inside "
+                 "the jitter band. distinct_nontrivial = chains with >= 2 window switches."),
+        "trusted": [
+            "C06: Model/Schedule.lean is hand-written (single-assignment transcription of GlobalStrategy::adapt) and tied by per-draw correspondence through cfg(nuts_rs_verif) read accessors; flow strategy (ExternalTransformAdaptation) is not covered by this check",
+            "C06: that Progress is built after adapt in both chains is checked on real runs (tuning-count oracle), not a theorem",
+        ],
+    },
+    "C09": {
+        "gen": ["Numeric"],
+        "thm_module": "NutsModel.Thm.Sched",
+        "namespace": "NutsModel.Sched",
+        "theorems": [
+            "step_mass_phase", "switch_condition", "late_iff", "final_window_symmetric", "rejected_not_counted",
+            "step_mass_reinit", "reinit_iff", "window_monotone", "nextWindow_grows", "fresh_step", "no_stale_draws",
+        ],
+        "harness": "C06",
+        "level": "proof",
+        "rule": ("same runs as C06 (the schedule model is shared): per-draw comparison of foreground/background counts, current window, "
+                 "last update, has_initial flag and of WHICH acceptance statistic advanced the step-size estimator (the model's "
+                 "early/late choice must reproduce the observed dual-averaging / Adam state bit-exactly). "
+                 "distinct_nontrivial = chains with >= 2 window switches."),
+        "trusted": [
+            "C09: estimator contents are modelled as lists of sample ids (which draws are inside), not their numeric values; that both estimators (two running-variance pairs / deque with background_split) realise exactly these contents is checked through their counts on every draw",
+        ],
+    },
     "C07": {
         "gen": ["Numeric"],
         "thm_module": "NutsModel.Thm.C07",
